@@ -11,13 +11,13 @@
 (***************************************************************************)
 EXTENDS Tree, Json, Integers, Sequences, FiniteSets
 
-VARIABLES kidsOf, root, stack, started, count, pruned, nils, order, l, T
+VARIABLES kidsOf, root, stack, started, count, pruned, nils, order, l, T, aborted
 
 W == INSTANCE Walk WITH MaxNodes <- 0
 
 Trace == ndJsonDeserialize("trace.ndjson")
 
-tvars == <<kidsOf, root, stack, started, count, pruned, nils, order, l, T>>
+tvars == <<kidsOf, root, stack, started, count, pruned, nils, order, l, T, aborted>>
 
 Ev == Trace[l]
 
@@ -27,29 +27,46 @@ LoadTree(tr) ==
   /\ root' = tr.root
   /\ stack' = <<>> /\ started' = FALSE
   /\ count' = [i \in DOMAIN tr.nodes |-> 0]
-  /\ pruned' = {} /\ nils' = 0 /\ order' = <<>>
+  /\ pruned' = {} /\ nils' = 0 /\ order' = <<>> /\ aborted' = FALSE
 
 TInit == /\ l = 1 /\ T = [root |-> 0, nodes |-> <<>>, astorder |-> <<>>]
          /\ kidsOf = <<>> /\ root = 0 /\ stack = <<>> /\ started = FALSE
-         /\ count = <<>> /\ pruned = {} /\ nils = 0 /\ order = <<>>
+         /\ count = <<>> /\ pruned = {} /\ nils = 0 /\ order = <<>> /\ aborted = FALSE
 
 Consume == l <= Len(Trace) /\ l' = l + 1
 
 TTree  == Consume /\ Ev.ev = "tree" /\ (l = 1 \/ W!Done) /\ LoadTree(Ev.tree)
-TVisit == Consume /\ Ev.ev = "visit" /\ W!Visit(Ev.n, Ev.keep) /\ UNCHANGED T
-TNil   == Consume /\ Ev.ev = "nil" /\ W!VisitNil /\ UNCHANGED T
-TReset == Consume /\ Ev.ev = "reset" /\ W!Done /\ LoadTree(T)
-TEnd   == Consume /\ Ev.ev = "end" /\ W!Done /\ UNCHANGED <<kidsOf, root, stack, started, count, pruned, nils, order, T>>
+TVisit == Consume /\ Ev.ev = "visit" /\ W!Visit(Ev.n, Ev.keep) /\ UNCHANGED <<T, aborted>>
 
-TNext == TTree \/ TReset \/ TVisit \/ TNil \/ TEnd
+\* C14: a pre callback of Apply; the cursor must locate the node inside its parent
+CursorLocates(parent, name, index, n) ==
+  IF parent = 0 THEN n = T.root /\ index < 0
+  ELSE LET ix == {i \in DOMAIN T.nodes[parent].kids : T.nodes[parent].kids[i].f = name}
+       IN /\ ix # {}
+          /\ LET kd == T.nodes[parent].kids[CHOOSE i \in ix : TRUE]
+             IN IF index < 0 THEN ~kd.list /\ kd.ids = <<n>>
+                ELSE kd.list /\ index + 1 \in DOMAIN kd.ids /\ kd.ids[index + 1] = n
+TCVisit == /\ Consume /\ Ev.ev = "cvisit" /\ W!Visit(Ev.n, Ev.keep)
+           /\ CursorLocates(Ev.parent, Ev.name, Ev.index, Ev.n)
+           /\ UNCHANGED <<T, aborted>>
+\* post returned false: Apply stops at once and returns
+TAbort == /\ Consume /\ Ev.ev = "abort" /\ started /\ stack # <<>> /\ W!Top.rest = <<>>
+          /\ stack' = <<>> /\ aborted' = TRUE
+          /\ UNCHANGED <<kidsOf, root, started, count, pruned, nils, order, T>>
+TNil   == Consume /\ Ev.ev = "nil" /\ W!VisitNil /\ UNCHANGED <<T, aborted>>
+TReset == Consume /\ Ev.ev = "reset" /\ W!Done /\ LoadTree(T)
+TEnd   == Consume /\ Ev.ev = "end" /\ W!Done /\ UNCHANGED <<kidsOf, root, stack, started, count, pruned, nils, order, T, aborted>>
+
+TNext == TTree \/ TReset \/ TVisit \/ TCVisit \/ TNil \/ TAbort \/ TEnd
 TSpec == TInit /\ [][TNext]_tvars
 
 \* P-layer, evaluated at every step of every recorded traversal
 VisitedAtMostOnce == W!VisitedAtMostOnce
 VisitedExactly == W!VisitedExactly
+TraceVisitedExactly == aborted \/ W!VisitedExactly
 
 \* a complete, unpruned traversal visits the nodes in the order go/ast visits their originals
-AstOrder == (W!Done /\ pruned = {} /\ T.root # 0) => order = T.astorder
+AstOrder == (W!Done /\ pruned = {} /\ T.root # 0 /\ ~aborted) => order = T.astorder
 
 View == l
 
